@@ -138,6 +138,10 @@ def run_item(item):
                 s_own = pset_of(ks[:1]) + pset_of(ks[1:])
                 _larger = s_own + pset_of([0.123])
                 forms.append(("functionset-sum-reused", s_own))
+                # ... also when the larger sum is formed with ANOTHER sum (collection + collection)
+                s_own2 = pset_of(ks[:1]) + pset_of(ks[1:])
+                _larger2 = s_own2 + (pset_of([0.123]) + pset_of([0.456]))
+                forms.append(("functionset-sum-reused2", s_own2))
             if F >= 3 and edim == 1:
                 forms.append(("functionset-sum3", (pset_of(ks[:1]) + pset_of(ks[1:2])) + pset_of(ks[2:])))
             if F == 1 and edim == 1:
